@@ -128,6 +128,7 @@ type Session struct {
 	// regions declared on this path
 	regions []regionRec
 	maxConcretize int
+	cuts    []string
 }
 
 type regionRec struct {
@@ -251,6 +252,7 @@ func (s *Session) beginPath(prefix []Decision) {
 	s.symDecisions = 0
 	s.incomplete = ""
 	s.regions = nil
+	s.cuts = nil
 }
 
 func sortOf(w int) string {
@@ -853,12 +855,23 @@ func (s *Session) concretize(t *Term) uint64 {
 	}
 	var vals []uint64
 	var blocks []*Term
-	if v, ok := s.eval(t); ok {
-		vals = append(vals, v)
-		blocks = append(blocks, s.not(s.mk("=", 0, t, s.constT(t.width, v))))
+	K := uint64(s.maxConcretize)
+	small := s.mk("bvult", 0, t, s.constT(t.width, K))
+	if t.width < 64 && K > mask(t.width) {
+		small = s.constT(0, 1)
 	}
-	for len(vals) <= s.maxConcretize {
-		r, m := s.queryVal(t, blocks)
+	mv, mok := s.eval(t)
+	if mok && (small.op == "const" || mv < K) {
+		vals = append(vals, mv)
+		blocks = append(blocks, s.not(s.mk("=", 0, t, s.constT(t.width, mv))))
+	}
+	// all values below the cap
+	for uint64(len(vals)) <= K {
+		q := append([]*Term{}, blocks...)
+		if small.op != "const" {
+			q = append(q, small)
+		}
+		r, v := s.queryVal(t, q)
 		if r == qUnknown {
 			s.incomplete = "solver unknown during concretisation"
 			break
@@ -866,16 +879,37 @@ func (s *Session) concretize(t *Term) uint64 {
 		if r != qSat {
 			break
 		}
-		v := m
 		vals = append(vals, v)
 		blocks = append(blocks, s.not(s.mk("=", 0, t, s.constT(t.width, v))))
 	}
+	// above the cap: representative values only (recorded as a cut)
+	if small.op != "const" {
+		if r, _ := s.query(false, s.not(small)); r == qSat {
+			s.cuts = append(s.cuts, fmt.Sprintf("site needing a concrete value had feasible values >= %d: only boundary representatives explored there", K))
+			reps := []uint64{K, 255, 256, 1<<15 - 1, 1 << 15, 1<<16 - 1, 1 << 16, 1<<31 - 1, 1 << 31, 1<<32 - 1, 1 << 32, 1<<63 - 1, 1 << 63, ^uint64(0)}
+			if mok && mv >= K {
+				reps = append([]uint64{mv}, reps...)
+			}
+			seen := map[uint64]bool{}
+			for _, rv := range reps {
+				rv &= mask(t.width)
+				if rv < K || seen[rv] {
+					continue
+				}
+				seen[rv] = true
+				eq := s.mk("=", 0, t, s.constT(t.width, rv))
+				if mok && rv == mv {
+					vals = append(vals, rv)
+					continue
+				}
+				if r, _ := s.query(false, eq); r == qSat {
+					vals = append(vals, rv)
+				}
+			}
+		}
+	}
 	if len(vals) == 0 {
 		panic(pathInfeasible{})
-	}
-	if len(vals) > s.maxConcretize {
-		s.incomplete = "concretisation cap exceeded"
-		panic(pathIncomplete{fmt.Sprintf("more than %d feasible values at a site that needs a concrete value", s.maxConcretize)})
 	}
 	sort.Slice(vals[1:], func(i, j int) bool { return vals[1+i] < vals[1+j] })
 	for _, v := range vals[1:] {
